@@ -156,6 +156,10 @@ func (fc *FnCtx) trCall(st *State, call *ast.CallExpr) []Val {
 	}
 	// ghost models
 	if rs, ok := fc.trModel(st, call, fn, recvExpr, full); ok {
+		st.env["ghost.called."+fn.Name()] = boolVal("true")
+		for i, rv := range rs {
+			st.env[fmt.Sprintf("ghost.ret.%s.%d", fn.Name(), i)] = rv
+		}
 		return rs
 	}
 	// interface method on IProcessor etc: unresolved dynamic dispatch
@@ -239,7 +243,7 @@ func (fc *FnCtx) havocCall(st *State, call *ast.CallExpr, what string) []Val {
 		_ = fc.tr(st, a)
 	}
 	rs := fc.freshResults(st, call, "call")
-	if fn, _ := fc.calleeOf(call); fn != nil && fn.Pkg() != nil && fc.w.isRepoPkg(fn.Pkg().Path()) {
+	if fn, _ := fc.calleeOf(call); fn != nil && fn.Pkg() != nil {
 		st.env["ghost.called."+fn.Name()] = boolVal("true")
 		for i, rv := range rs {
 			st.env[fmt.Sprintf("ghost.ret.%s.%d", fn.Name(), i)] = rv
@@ -493,6 +497,9 @@ func (fc *FnCtx) trHelper(st *State, name string, call *ast.CallExpr) Val {
 		return Val{T: "(regroup_" + id + "_" + bl.Value + " " + s.T + ")", S: SStr}
 	case "implies":
 		a := fc.tr(st, call.Args[0])
+		if a.T == "false" {
+			return boolVal("true")
+		}
 		st.guard = append(st.guard, a.T)
 		b := fc.tr(st, call.Args[1])
 		st.guard = st.guard[:len(st.guard)-1]
@@ -767,11 +774,9 @@ func (fc *FnCtx) callByContract(st *State, call *ast.CallExpr, fn *types.Func, r
 		t := fc.tr(st, cl.Expr)
 		st.addAssume(t.T)
 	}
-	if !c.Extern {
-		st.env["ghost.called."+fn.Name()] = boolVal("true")
-		for i, rv := range results {
-			st.env[fmt.Sprintf("ghost.ret.%s.%d", fn.Name(), i)] = rv
-		}
+	st.env["ghost.called."+fn.Name()] = boolVal("true")
+	for i, rv := range results {
+		st.env[fmt.Sprintf("ghost.ret.%s.%d", fn.Name(), i)] = rv
 	}
 	if c.Opts["exits"] == "always" {
 		st.env["$outcome"] = Val{T: "exit", S: SOpaque}
